@@ -9,12 +9,12 @@ from lxml import etree
 from harness.core import Result
 from harness import xsdgen, xmlcanon, enginea, valgen, kwtie
 
-LEAN_MODULES = ["ZeepProofs.C12", "ZeepProofs.C12Faithful", "ZeepProofs.C12Choice"]
+LEAN_MODULES = ["ZeepProofs.C12", "ZeepProofs.C12Faithful", "ZeepProofs.C12Choice", "ZeepProofs.C12Attrs"]
 NS = "Zeep.Bind."
 THEOREMS = [NS + t for t in ("c12_unknown_key_refused", "c12_unknown_key_any_depth", "c12_surplus_positional_refused", "c12_duplicate_refused",
                               "c12_occurs_refused", "c12_missing_required_refused", "c12_missing_required_attribute_refused",
                               "c12_conventions_agree", "c12_skip_omits", "c12_nil_marks", "c12_faithful")] + [
-    "Zeep.BindKw." + t for t in ("c12_two_choice_branches_refused", "c12_kw_unknown_refused", "c12_kw_accepted_keeps_values", "c12_kw_conforming_accepted", "c12_choice_rendered_faithfully", "c12_kw_fields_declared")]
+    "Zeep.BindKw." + t for t in ("c12_two_choice_branches_refused", "c12_kw_unknown_refused", "c12_kw_accepted_keeps_values", "c12_kw_conforming_accepted", "c12_choice_rendered_faithfully", "c12_kw_fields_declared")] + ["Zeep.SchemaAttrs.c12_nillable_read_as_xsd_boolean"]
 LEVEL = "proof"
 MANIFEST = dict(
     engine="A: lean/ZeepModel/Xsd/Bind.lean, lean/ZeepModel/Xsd/BindKw.lean (+ harness/valgen.py, harness/kwtie.py)",
@@ -24,7 +24,7 @@ MANIFEST = dict(
               "corruptions, plus a direct refusal oracle on the implementation (choice branches included); a second, statement-level model of the keyword "
               "pass of _process_signature over signatures with non-repeating choices (Choice.parse_kwargs with its scratch copy of the available "
               "keywords), with refusal / acceptance / nothing-ignored theorems for all signatures and calls, tied to _process_signature itself",
-    text="For every record signature and every argument set the model refuses (TypeError / ValidationError before any XML exists) a keyword that "
+    text="For every record signature and every argument set the model refuses (TypeError / ValidationError before any XML exists) a keyword that  c12_nillable_read_as_xsd_boolean (ZeepProofs/C12Attrs.lean) is an obligation re-proved on every run against Generated/SchemaAttrs.lean (translator schema_attrs.py): the spellings of `nillable` the schema compiler reads as true are exactly those xsd:boolean reads as true, so whether a required member may be left out follows the declaration in every spelling."
          "names nothing — at the top level and, by induction over the path, at any nesting depth incl. inside an iteration of a repeated sequence —, "
          "surplus positional arguments, a field given twice, a repetition outside its occurrence bounds, a missing required non-nillable element "
          "and a missing required attribute; positional and keyword spellings of the same data give the same result; SkipValue omits and Nil marks "
